@@ -16,6 +16,8 @@ type Clause struct {
 	Kind   string // requires ensures invariant assertcall
 	Label  string
 	Props  []string
+	Local  bool     // proved for the function itself, not exported to its callers ("local" inside the tag brackets)
+	Use    []string // proof hint "use:<label>": of the entry data-structure invariants, only these (and the clause itself) are assumed when this invariant is re-established
 	Src    string
 	Expr   *SExpr
 	Loop   int
@@ -63,7 +65,7 @@ type FuncSpec struct {
 	// data-structure invariants of the receiver: assumed at entry, proved at exit; NOT re-proved at call sites
 	// (sound provided every writer of the fields they mention is a function that carries the same invariant:
 	// the encapsulation audit of the property that uses them)
-	Invariants []*Clause
+	Invariants  []*Clause
 	Modifies    []string
 	ModifiesAll bool
 	HasModifies bool // a modifies clause is present (possibly "modifies nothing")
@@ -97,12 +99,12 @@ type GhostGlobal struct {
 
 // Contracts is the parsed content of all contract files.
 type Contracts struct {
-	Specs   map[string]*FuncSpec
-	Globals map[string]*GlobalDecl
-	Ghosts  map[string]*GhostGlobal
-	Macros  map[string]*Macro
-	Order   []string
-	Errors  []string
+	Specs    map[string]*FuncSpec
+	Globals  map[string]*GlobalDecl
+	Ghosts   map[string]*GhostGlobal
+	Macros   map[string]*Macro
+	Order    []string
+	Errors   []string
 	TypeInvs []TypeInv
 }
 
@@ -119,7 +121,7 @@ type TypeInv struct {
 	Typ  types.Type // type of the value v
 }
 
-var labelRe = regexp.MustCompile(`^([A-Za-z0-9_\-\.]+)?\s*(\[[A-Za-z0-9 ,]*\])?\s*:\s*(.*)$`)
+var labelRe = regexp.MustCompile(`^([A-Za-z0-9_\-\.]+)?\s*(\[[A-Za-z0-9 ,:\-\.]*\])?\s*:\s*(.*)$`)
 
 func parseLabelProps(rest string) (label string, props []string, body string, ok bool) {
 	m := labelRe.FindStringSubmatch(rest)
@@ -366,6 +368,18 @@ func (cs *Contracts) clause(cur *FuncSpec, word, rest, file string, line int) {
 			return
 		}
 		cl := &Clause{Kind: word, Label: label, Props: props, Src: body, Expr: ex, File: file, Line: line}
+		var kept []string
+		for _, pr := range cl.Props {
+			switch {
+			case pr == "local":
+				cl.Local = true
+			case strings.HasPrefix(pr, "use:"):
+				cl.Use = append(cl.Use, strings.TrimPrefix(pr, "use:"))
+			default:
+				kept = append(kept, pr)
+			}
+		}
+		cl.Props = kept
 		switch word {
 		case "requires":
 			cur.Requires = append(cur.Requires, cl)
